@@ -1388,7 +1388,7 @@ cleanup:
     lydctx->int_opts = prev_int_opts;
     lydctx->any_schema = NULL;
     free(val);
-    lyd_free_tree(child);
+    lyd_free_siblings(child);
     return rc;
 }
 
